@@ -72,10 +72,10 @@ pub fn gen_case(r: &mut Rng, max: usize) -> (Model, Vec<usize>, &'static str) {
         }
         return (m, src, fam);
     }
-    let f = r.below(gen::FAMILIES.len());
-    fam = gen::FAMILIES[f];
-    let n = gen::small_order(r, max);
-    m = gen::family(r, f, n);
+    let (mm, ff) = gen::algo_digraph(r, max, 257);
+    m = mm;
+    fam = ff;
+    let n = m.n();
     let wc = *r.pick(&[WClass::Unit, WClass::ZeroOne, WClass::ZeroOne, WClass::Small, WClass::Small, WClass::Large]);
     gen::weights(r, &mut m, wc);
     let src = gen::sources(r, n);
@@ -86,9 +86,10 @@ pub fn case(idx: u64, seed: u64, p: &Params, o: &mut CaseOut) {
     let mut r = Rng::for_case(3, seed, idx);
     let (m, src, fam) = gen_case(&mut r, p.usize("max_order", 24));
     let n = m.n();
-    let d = build_w_usize(&m);
+    let k = usize_scale(&mut r, &m);
+    let d = build_w_usize_scaled(&m, k);
     let refd = m.dist_from(&src).expect("harness: negative circuit with non-negative weights");
-    let want: Vec<usize> = (0..n).map(|v| refd.get(&v).map_or(usize::MAX, |&x| x as usize)).collect();
+    let want: Vec<usize> = (0..n).map(|v| refd.get(&v).map_or(usize::MAX, |&x| x as usize * k)).collect();
 
     // distances()
     let got = DijkstraDist::new(&d, src.iter().copied()).distances();
@@ -110,7 +111,7 @@ pub fn case(idx: u64, seed: u64, p: &Params, o: &mut CaseOut) {
     let items: Vec<(usize, usize)> = DijkstraDist::new(&d, src.iter().copied()).take(4 * n + 4).collect();
     let vs: Vec<usize> = items.iter().map(|x| x.0).collect();
     check_seq(o, "DijkstraDist", &vs, &refd, n);
-    let bad = items.iter().find(|&&(v, w)| refd.get(&v).map(|&x| x as usize) != Some(w));
+    let bad = items.iter().find(|&&(v, w)| refd.get(&v).map(|&x| x as usize * k) != Some(w));
     o.check(bad.is_none(), "DijkstraDist:item-distance", || format!("item {:?} but reference distance {:?}", bad.unwrap(), refd.get(&bad.unwrap().0)));
 
     let sup = superseded_pop(&m, &src);
@@ -119,6 +120,7 @@ pub fn case(idx: u64, seed: u64, p: &Params, o: &mut CaseOut) {
     for &s in &src {
         fp.us(s);
     }
+    fp.us(k);
     o.fp = fp.0;
     o.nontrivial = refd.len() >= 3 && sup;
     o.bump(fam);
@@ -127,11 +129,17 @@ pub fn case(idx: u64, seed: u64, p: &Params, o: &mut CaseOut) {
     }
     o.bumpn("sources", src.len());
     o.bumpn("order/4", n / 4);
+    if k > 1 {
+        o.bump("weights_scaled_up");
+        if refd.values().any(|&x| (x as u128) * (k as u128) > (usize::MAX / 2) as u128) {
+            o.bump("a_distance_above_usize::MAX/2");
+        }
+    }
     if m.arcs.values().any(|&w| w == 0) {
         o.bump("has_zero_weight");
     }
     if o.want_desc {
-        o.desc = format!("AdjacencyListWeighted<usize> family={fam} {} sources={src:?}", m.describe());
+        o.desc = format!("AdjacencyListWeighted<usize> family={fam} {} sources={src:?} (every weight multiplied by {k})", m.describe());
     }
 }
 
